@@ -59,8 +59,12 @@ fn replay(path: &std::path::Path) -> ! {
         dmax: usize::MAX / 2,
         harvest: false,
     };
-    let a = vrt::run_one(&job, &cfg, &choices, None);
-    let b = vrt::run_one(&job, &cfg, &choices, None);
+    let guide: Option<Vec<vrt::Guide>> = r.get("guide").and_then(|g| serde_json::from_value(g.clone()).ok());
+    let (a, b) = match &guide {
+        // a model trace replayed on the implementation (guided execution)
+        Some(g) => (vrt::run_guided(&job, &cfg, g), vrt::run_guided(&job, &cfg, g)),
+        None => (vrt::run_one(&job, &cfg, &choices, None), vrt::run_one(&job, &cfg, &choices, None)),
+    };
     println!("replay 1: outcome {:?} deadlock {:?} races {:?} divergence {:?}", a.outcome, a.deadlock, a.races, a.divergence);
     println!("replay 2: outcome {:?} deadlock {:?} races {:?}", b.outcome, b.deadlock, b.races);
     if a.divergence.is_some() || a.obs != b.obs {
@@ -152,11 +156,17 @@ fn main() {
     // sources on which some explored execution showed a handle_success effect that differs from the reference run's
     let mut effect_variants: BTreeMap<&str, Vec<String>> = BTreeMap::new();
     let (mut model_states, mut model_transitions) = (0usize, 0usize);
+    // model traces replayed on the implementation (guided executions, DESIGN.md §2.2c)
+    let max_guided: usize = std::env::var("C02_GUIDED_MAX").ok().and_then(|s| s.parse().ok()).unwrap_or(args.tier.pick(48, 600));
+    let mut guided_reports = vec![];
+    let (mut guided_total, mut guided_followed, mut guided_unrealizable, mut guided_steps) = (0usize, 0usize, 0usize, 0usize);
+    let mut guided_sample: Option<serde_json::Value> = None;
     for si in &model_sources {
         let src = &fam[*si];
         let dir = sc.join(&format!("m{si}"));
         let path = src.design.write_source(&dir).unwrap_or_else(|e| vcore::machinery_error(&format!("write source: {e}")));
         let ir_root = src.emit_ir.then(|| dir.join("irs"));
+        let guided_worker_arg = json!({"path": path, "opts": src.opts, "ir_root": ir_root}).to_string();
         let job = make_job(path, src.opts.clone(), ir_root);
         let base = RunCfg { k: 64, main_last: false, dmax: 0, harvest: false };
         let t = std::time::Instant::now();
@@ -185,15 +195,102 @@ fn main() {
         }
         let m = vrt::absmodel::explore(&inst, model_cap);
         // reported after the implementation exploration: only if every explored execution conforms to the model
-        for (v, trace) in &m.violations {
+        for (vi, (v, trace)) in m.violations.iter().enumerate() {
             let class = v.split(':').next().unwrap_or("violation");
             let first = v.split(" (").next().unwrap_or(v);
+            // the counterexample is replayed on the implementation: the schedule follows the model trace, then the
+            // job the model says can launch too early is executed, then the run finishes on the default schedule
+            let mut guide_json = serde_json::Value::Null;
+            let mut on_impl = "the trace could not be turned into a guide".to_string();
+            if let Some(free) = m.violation_free.get(vi) {
+                if let Ok(mut g) = inst.guide_of(free, trace) {
+                    if let Some(q) = v.strip_prefix("order-not-forced: ").and_then(|x| x.split(" can launch").next()) {
+                        g.push(vrt::Guide::Exec(q.to_string()));
+                    }
+                    let x = vrt::run_guided(&job, &base, &g);
+                    on_impl = match (&x.divergence, &x.outcome) {
+                        (Some(d), _) => format!("the implementation could not follow the model trace ({})", short(d)),
+                        (None, o) => format!(
+                            "the implementation followed the model trace ({} guide steps); outcome {}; unordered accesses {:?}{}",
+                            x.guide_steps_followed,
+                            short(o.as_deref().unwrap_or("none")),
+                            x.races.iter().take(3).collect::<Vec<_>>(),
+                            x.deadlock.as_ref().map(|d| format!("; deadlock {}", short(d))).unwrap_or_default()
+                        ),
+                    };
+                    guide_json = json!(g);
+                }
+            }
             pending_model_violations.push((
                 src.name,
                 format!("model:{}:{}:{}", src.name, class, short(first)),
-                format!("abstract scheduler model (all interleavings): {v}; model trace: {}", trace.join(" ; ")),
-                json!({"source": src.name, "design": src.design, "opts": src.opts, "emit_ir": src.emit_ir, "model_trace": trace, "kind": "model"}),
+                format!("abstract scheduler model (all interleavings): {v}; model trace: {}; replayed on the implementation: {on_impl}", trace.join(" ; ")),
+                json!({"source": src.name, "design": src.design, "opts": src.opts, "emit_ir": src.emit_ir, "model_trace": trace, "kind": "model",
+                       "guide": guide_json, "k": 64, "main_last": false}),
             ));
+        }
+        // model -> implementation: a set of model traces that takes every distinct transition label (every Finish j, every
+        // Handle j, every distinct launch set) is replayed on the real scheduler; each guided execution must be followed to the
+        // end of the trace, launch what the model launches, conform to the model snapshot by snapshot, and end in the same font
+        {
+            let free = inst.dynamic_set();
+            let (traces, cs) = vrt::absmodel::cover_traces(&inst, &free, model_cap, max_guided);
+            let guides: Vec<Vec<vrt::Guide>> = traces.iter().filter_map(|t| inst.guide_of(&free, t).ok()).collect();
+            let results = vrt::guided_mp(&guided_worker_arg, &guides, vcore::ncores());
+            let (mut followed, mut unreal, mut notes_n, mut steps) = (0usize, 0usize, 0usize, 0usize);
+            let mut first_unreal: Option<String> = None;
+            let mut first_note: Option<String> = None;
+            for (g, x) in guides.iter().zip(results.iter()) {
+                let mk = || json!({"source": src.name, "design": src.design, "opts": src.opts, "emit_ir": src.emit_ir, "k": 64, "main_last": false, "guide": g, "kind": "guided"});
+                steps += x.guide_steps_followed;
+                if let Some(d) = &x.divergence {
+                    unreal += 1;
+                    first_unreal.get_or_insert_with(|| short(d));
+                    continue;
+                }
+                followed += 1;
+                if !x.guide_notes.is_empty() {
+                    notes_n += 1;
+                    first_note.get_or_insert_with(|| short(&x.guide_notes[0]));
+                }
+                if let Some(o) = x.outcome.as_deref().filter(|o| !o.starts_with("ok:")) {
+                    rep.violation(&format!("failure:{}:{}", src.name, short(o)), &format!("valid source fails on a schedule that follows a trace of the scheduler model: {}", short(o)), mk());
+                } else if x.outcome != r.outcome {
+                    rep.violation(&format!("outcome-differs:{}", src.name), &format!("a schedule that follows a model trace gives {:?}, the default schedule {:?}", x.outcome, r.outcome), mk());
+                }
+                if let Some(d) = &x.deadlock {
+                    rep.violation(&format!("deadlock:{}", src.name), &format!("no enabled actor on a guided schedule: {}", short(d)), mk());
+                }
+                for race in &x.races {
+                    rep.violation(&format!("race:{}:{}", src.name, race), &format!("unordered conflicting accesses on a schedule that follows a model trace: {race}"), mk());
+                }
+                if !x.protocol_errors.is_empty() {
+                    vcore::machinery_error(&format!("worker protocol drift on a guided execution: {:?}", x.protocol_errors.first()));
+                }
+                if let Some(e) = &x.conform_error {
+                    if e.starts_with("effect-variant:") {
+                        let v = effect_variants.entry(src.name).or_default();
+                        if v.len() < 4 && !v.contains(e) {
+                            v.push(e.clone());
+                        }
+                    } else {
+                        rep.violation(&format!("model-nonconformance:{}:{}", src.name, short(e)), &format!("a guided execution (model trace replayed on the implementation) does not conform to the model: {e}"), mk());
+                    }
+                }
+                if guided_sample.is_none() {
+                    guided_sample = Some(json!({"source": src.name, "model_trace_len": g.len(), "guide_head": g.iter().take(6).collect::<Vec<_>>(), "outcome": x.outcome.as_deref().map(short)}));
+                }
+            }
+            guided_total += guides.len();
+            guided_followed += followed;
+            guided_unrealizable += unreal;
+            guided_steps += steps;
+            eprintln!("[C02] guided {}: labels {} covered {} traces {} followed {} unrealizable {} notes {} ({:?} / {:?})",
+                src.name, cs.distinct_labels, cs.labels_covered, guides.len(), followed, unreal, notes_n, first_unreal, first_note);
+            guided_reports.push(json!({"source": src.name, "distinct_transition_labels": cs.distinct_labels, "labels_covered_by_the_replayed_traces": cs.labels_covered,
+                "model_traces_replayed": guides.len(), "followed_to_the_end": followed, "not_realizable_on_the_implementation": unreal,
+                "first_not_realizable": first_unreal, "executions_whose_launch_sets_or_batches_differ_from_the_model": notes_n, "first_difference": first_note,
+                "guide_steps_followed": steps}));
         }
         if m.capped {
             all_exhaustive_model = false;
@@ -349,7 +446,10 @@ fn main() {
         "executions_replayed_against_the_model": totals.conformed}));
     rep.set("abstract_model", json!({"sources": model_reports, "states": model_states, "transitions": model_transitions, "exhaustive": all_exhaustive_model,
         "what": "per source: scheduler model extracted from a recorded execution (jobs, counters, accesses at insertion, effect of every handle_success, conflict order of the reference run), every interleaving of Scan / Finish / Handle explored breadth-first; every execution of the implementation exploration is replayed against it"}));
-    rep.set("traces_validated_against_impl", totals.execs);
+    rep.set("model_traces_replayed_on_the_implementation", json!({"traces": guided_total, "followed_to_the_end": guided_followed,
+        "not_realizable": guided_unrealizable, "guide_steps_followed": guided_steps, "per_source": guided_reports, "sample": guided_sample,
+        "what": "a set of model traces taking every distinct transition label of the dynamic-set exploration (longest first, capped per source) is turned into a guide (Scan / Finish / Batch steps) that the controlled scheduler follows on the real Workload::exec; each such execution is recorded, replayed against the model snapshot by snapshot, and must end in the font of the default schedule"}));
+    rep.set("traces_validated_against_impl", totals.execs + guided_followed);
     rep.set("evaluations", totals.execs);
     rep.set("executions_complete", totals.complete);
     rep.set("executions_abandoned_at_visited_state", totals.pruned);
